@@ -172,7 +172,7 @@ Definition cs_c04_full_statement : Prop :=
     (cs_bal (st_accts st) (tx_from tx) - cs_bal (st_accts st') (tx_from tx) <= tx_value tx + cs_fee_of cfg tx) /\
     (forall id, cs_bal (st_accts st') id < cs_bal (st_accts st) id -> id = tx_from tx \/ id = tx_to tx).
 
-Definition cs_c04_cfg := {| cfg_fee := true; cfg_events := false; cfg_miner := 0 |}.
+Definition cs_c04_cfg := {| cfg_fee := true; cfg_events := false; cfg_miner := 0; cfg_strict_ids := false |}.
 Definition cs_c04_state :=
   let A b := {| ac_bal := b; ac_nonce := 0; ac_txn := -1; ac_round := 0 |} in
   {| st_accts := [(1, A 50); (3, A 100); (4, A 70)]; st_nodes := [] |}.
